@@ -6,6 +6,7 @@ import TshVerif.Model.Lexer
 import TshVerif.Model.Sexp
 import TshVerif.Model.EmitBash
 import TshVerif.Model.Parser
+import TshVerif.Model.Cli
 
 open Tsh
 
@@ -99,7 +100,34 @@ def handleTrace (hex : String) : String :=
     | .err => "ERR"
     | .diverge => "DIVERGE"
 
+/-- CLI <bash: OKhex|ERR> <batch: OKhex|ERR> <nfiles> {pathhex contenthex}* <ndirs> {pathhex}* <nargs> {arghex}* -/
+def handleCli (xs : List String) : String :=
+  let lib (s : String) : Option Bytes := if s.startsWith "OK" then bytesOfHex (s.drop 2).toString else none
+  match xs with
+  | sh :: bat :: nf :: rest =>
+    let nf := nf.toNat!
+    let fl := rest.take (2 * nf)
+    let rest := rest.drop (2 * nf)
+    match rest with
+    | nd :: rest =>
+      let nd := nd.toNat!
+      let dl := rest.take nd
+      match rest.drop nd with
+      | _na :: args =>
+        let dec (h : String) : String := bytesStr ((bytesOfHex h).getD [])
+        let rec pairs (l : List String) : List (String × Bytes) :=
+          match l with
+          | p :: c :: more => (Cli.clean (dec p), (bytesOfHex c).getD []) :: pairs more
+          | _ => []
+        let fs : Cli.FS := { files := pairs fl, dirs := dl.map fun d => Cli.clean (dec d) }
+        let r := Cli.run fs (args.map dec) (fun t => match t with | .bash => lib sh | .batch => lib bat)
+        s!"EXIT {r.status}" ++ String.join (r.writes.map fun (p, c) => s!" {hexOfString p}:{hexOfBytes c}")
+      | [] => "BADREQ"
+    | [] => "BADREQ"
+  | _ => "BADREQ"
+
 def handle (line : String) : String :=
+  if line.startsWith "CLI " then handleCli ((line.drop 4).toString.splitOn " ") else
   if line.startsWith "FULLBASH " then handleFullBash ((line.drop 9).toString.splitOn " ") else
   if line.startsWith "PARSE " then handleParse ((line.drop 6).toString.splitOn " ") else
   if line.startsWith "BASH " then handleBash (line.drop 5).toString else
